@@ -64,9 +64,14 @@ def fmax (a b : Float) : Float := if a < b then b else a
 def isclose (a b rel abs : Float) : Bool :=
   a == b || fabs (a - b) <= fmax (rel * fmax (fabs a) (fabs b)) abs
 
-/-- A scalar pattern constant (`_matcher._match_constant`): rank 0 and `isclose(·, expected, 1e-5, 1e-8)`. -/
+/-- A scalar *float* pattern literal (`_matcher._match_constant`): rank 0 and `isclose(·, expected, 1e-5, 1e-8)`. -/
 def constMatches (rank : Nat) (v expected : Float) : Bool :=
   rank == 0 && isclose v expected 1e-5 1e-8
+
+/-- A scalar *integer* pattern literal (`op.Pow(x, 3)`, `op.Add(t, 1)`): since /repo commit 6800bd1 integer
+literals default to zero tolerance, i.e. `isclose(·, expected, 0, 0)` = equality. -/
+def constMatchesExact (rank : Nat) (v expected : Float) : Bool :=
+  rank == 0 && isclose v expected 0.0 0.0
 
 def showF (x : Float) : String := "f" ++ toString x.toBits.toNat
 
@@ -230,9 +235,12 @@ def skip (i : SkipIn) : String :=
 def sqrtTwoOverPi : Float := Float.sqrt (2.0 / 3.141592653589793)
 def sqrtTwo : Float := Float.sqrt 2.0
 
-def allClose (rank1 : Int) : Nat → List Float → List Float → Bool
+/-- `exact`: positions whose pattern literal is a Python `int` (matched exactly). -/
+def allClose (rank1 : Int) (exact : List Nat := []) : Nat → List Float → List Float → Bool
   | _, [], [] => true
-  | k, v :: vs, e :: es => constMatches (if rank1 == (k : Int) then 1 else 0) v e && allClose rank1 (k + 1) vs es
+  | k, v :: vs, e :: es =>
+    (if exact.contains k then constMatchesExact (if rank1 == (k : Int) then 1 else 0) v e
+     else constMatches (if rank1 == (k : Int) then 1 else 0) v e) && allClose rank1 exact (k + 1) vs es
   | _, _, _ => false
 
 /-- `fuse_erfgelu` then `fuse_gelu` on one GELU-shaped expression.  `sw[k] = 1` when the k-th binary node of
@@ -241,10 +249,10 @@ def gelu (form : String) (sw : List Nat) (consts : List Float) (rank1 : Int) : S
   let s (k : Nat) := sw.getD k 0
   match form with
   | "tanh" =>
-    if sw.all (· == 0) && allClose rank1 0 consts [3.0, 0.044715, sqrtTwoOverPi, 1.0, 0.5] then
+    if sw.all (· == 0) && allClose rank1 [0, 3] 0 consts [3.0, 0.044715, sqrtTwoOverPi, 1.0, 0.5] then
       "count=1 FastGelu@com.microsoft{}(x)->1" else "count=0"
   | _ =>
-    let cOk := allClose rank1 0 consts [sqrtTwo, 1.0, 0.5]
+    let cOk := allClose rank1 [] 0 consts [sqrtTwo, 1.0, 0.5]
     -- three shapes exist: E  = Mul(Mul(x,T), h)   (gelu.py)
     --                     EG1 = Mul(h, Mul(x,T))   (erfgelu rule1)
     --                     EG2 = Mul(x, Mul(h,T))   (erfgelu rule2);  T = Add(Erf(Div(x,√2)), 1)
